@@ -12,6 +12,7 @@ C18_LEGACY=1 selects the model of the code as it was before the fix: commits of 
 import json, os
 from harness import common as C
 from harness.common import cbytes, cbool, clist, cnat, copt
+from harness.props import pyfun_util
 
 PID = "C18"
 LEGACY = os.environ.get("C18_LEGACY") == "1"
@@ -504,6 +505,11 @@ def run(ctx):
                        "Unifying: encrypted keystroke frames (type 0xD3) with 7-byte hid_data / unused and a counter"]
     libs = ["theories/Lib/Bytes.vo", "theories/Lib/Xor.vo", "theories/Lib/Aes.vo", "theories/Lib/Ccm.vo", "theories/Lib/Cmac.vo"]
     proofs_ok, detail = ctx.check_proofs(lib_targets=libs)
+    # LoRaWAN B0 / A_i blocks, xor loops and the Unifying AES input regenerated from the source and proved equal
+    # to the model (harness/translators/pyfun.py, theories/C18/{Gen,GenEq,PropertyGen}.v, design/PYTRANS.md)
+    gen = pyfun_util.check_generated(ctx, PID)
+    if not gen["ok"]:
+        proofs_ok, detail = False, (detail if not proofs_ok else str(gen["what"])) + gen["detail"]
     ctx.log("proofs:", proofs_ok, detail.splitlines()[0][:200])
 
     corpus = load_corpus()
@@ -639,7 +645,7 @@ def run(ctx):
     ctx.cov["samples"] = [{"lorawan": lw[s0], "impl": {k: v for k, v in res["lw"][s0].items() if k != "sweep"}},
                           {"rf4ce": rf[len(corpus["rf"]) + 1], "impl": {k: v for k, v in res["rf"][len(corpus["rf"]) + 1].items() if k != "sweep"}},
                           {"unifying": un[len(corpus["un"])], "impl": res["un"][len(corpus["un"])]}]
-    ctx.cov["source_ties"] = [C.source_tie("whad/lorawan/crypto.py", 16, 375), C.source_tie("whad/scapy/layers/lorawan.py", 27, 122),
+    ctx.cov["source_ties"] = ctx.cov.get("source_ties", []) + [C.source_tie("whad/lorawan/crypto.py", 16, 375), C.source_tie("whad/scapy/layers/lorawan.py", 27, 122),
                               C.source_tie("whad/rf4ce/crypto.py", 29, 245), C.source_tie("whad/scapy/layers/rf4ce.py", 147, 182),
                               C.source_tie("whad/unifying/crypto.py", 14, 82), C.source_tie("whad/scapy/layers/unifying.py", 17, 74)]
     ctx.cov["legacy_model"] = LEGACY
